@@ -1150,6 +1150,10 @@ class _CallMixin:
                 f = self.get_attr(recv, name, node)
                 return self.call_value(f, args, kwargs, node)
             if isinstance(o, ListObj):
+                flds = getattr(o, "fields", None)
+                if flds and name in flds and o.concrete():
+                    # a namedtuple field that holds a callable
+                    return self.call_value(o.items[flds.index(name)][1], args, kwargs, node)
                 return self.list_method(recv, o, name, args, kwargs, node)
             if isinstance(o, DictObj):
                 return self.dict_method(recv, o, name, args, kwargs, node)
